@@ -106,6 +106,7 @@ bool ops_module(Ctx &c, Toks const &t, std::string const &rest)
     cvm::clear_error();
     return true;
   }
+  if (op == "m.setupout") { int rc = p->colvars->setup_output(); c.out("rc", itok(rc != COLVARS_OK ? 1 : 0)); cvm::clear_error(); return true; }
   if (op == "m.run") { p->begin_run(); return true; }
   if (op == "m.endrun") { p->end_run(); return true; }
   if (op == "m.step") {
